@@ -513,6 +513,8 @@ func (in *Interp) disjuncts(t *Term, out *[]*Term, limit int) bool {
 	return len(*out) <= limit
 }
 
+var debugForks = os.Getenv("SYMGO_FORKS") != ""
+
 type mergeAbort struct{}
 
 func (in *Interp) decide(c *Term, tag string) bool {
@@ -567,6 +569,13 @@ func (in *Interp) decide(c *Term, tag string) bool {
 		copy(np, in.trace)
 		np[len(in.trace)] = Decision{'b', b2u(!side), tag}
 		in.newWork = append(in.newWork, &WorkItem{Prefix: np, Model: m})
+		if debugForks {
+			fn := ""
+			if in.curFrame != nil {
+				fn = in.curFrame.fn.String()
+			}
+			in.stubs["fork:"+tag+"@"+fn]++
+		}
 	case "unknown":
 		in.res.unknown++
 	default:
